@@ -18,6 +18,7 @@ mod engine_b;
 mod engine_c;
 mod engine_d;
 mod engine_e;
+mod engine_f;
 mod sched;
 mod sysseam;
 mod inflate;
@@ -99,7 +100,14 @@ fn cmd_check(args: &[String]) -> i32 {
     let mut hash_xor = 0u64;
     let mut violation: Option<(Found, String)> = None;
     let mut known_hits: Vec<String> = Vec::new();
+    let only_engine = std::env::var("VERIF_ONLY_ENGINE").ok();
     for (pi, part) in check.parts.iter().enumerate() {
+        if let Some(o) = &only_engine {
+            // Self-test aid: run a single engine's parts (the evidence then says so).
+            if part.engine.name != o {
+                continue;
+            }
+        }
         let mut rep = match run_part(&check, pi, thorough, seed, nworkers, runs_override) {
             Ok(r) => r,
             Err(e) => {
@@ -391,7 +399,7 @@ fn cmd_selftest(args: &[String]) -> i32 {
             let only = arg_val(args, "--prop");
             for c in checks::all() {
                 if let Some(o) = &only {
-                    if o != c.prop {
+                    if !o.split(',').any(|x| x == c.prop) {
                         continue;
                     }
                 }
